@@ -42,7 +42,9 @@ Known(e) == IF sig[e] = "T" \/ doc[e] = "T" THEN "T" ELSE "none"
 LayoutFns == {l \in [Entries -> Layouts] : l["b"] = "doc" /\ l["c"] = "both"}
 SE == INSTANCE SequencesExt
 LaySeq == SE!SetToSeq(LayoutFns)
-Init == /\ lay \in {LaySeq[k] : k \in {j \in 1..Len(LaySeq) : j % NShards = Shard}}
+\* (the sequence is handed over as an ARGUMENT: TLC evaluates an argument once, a definition indexed inside a set constructor every time)
+ShardOf(seq) == {seq[k] : k \in {j \in 1..Len(seq) : j % NShards = Shard}}
+Init == /\ lay \in ShardOf(LaySeq)
         /\ sig = [e \in Entries |-> SigOf(lay[e])] /\ doc = [e \in Entries |-> DocOf(lay[e])]
         /\ style \in Styles /\ from = style /\ cfg \in Cfgs /\ rev = 0 /\ runs = 0 /\ retexpr \in BOOLEAN
 
